@@ -258,7 +258,7 @@ func bitopT(op token.Token, a, b *Term, e *FnExec) *Term {
 	AddAxiom(name, True)
 	ax := Imp(small, Eq(r, sum))
 	bitAxioms[r.id] = ax
-	if e != nil {
+	if e != nil && !ax.open {
 		e.facts = append(e.facts, ax)
 	}
 	return r
@@ -662,6 +662,14 @@ func (e *FnExec) lookup(st *State, x *ssa.Lookup) {
 		has = And(Neq(m, NilLoc), has)
 		res := Ite(has, val, zeroOf(t.Elem()))
 		e.addFact(st, Imp(has, e.typeFacts(t.Elem(), val, st)))
+		e.nLookups++
+		e.inputs = append(e.inputs, NamedTerm{fmt.Sprintf("lookup%d.has", e.nLookups), has, "bool"})
+		if val.Sort == "Int" || val.Sort == "Bool" || val.Sort == StrSort {
+			e.inputs = append(e.inputs, NamedTerm{fmt.Sprintf("lookup%d.val", e.nLookups), val, typeKey(t.Elem())})
+		}
+		if k.Sort == "Int" || k.Sort == StrSort {
+			e.inputs = append(e.inputs, NamedTerm{fmt.Sprintf("lookup%d.key", e.nLookups), k, typeKey(t.Key())})
+		}
 		if x.CommaOk {
 			e.vals[x] = Val{Tuple: []Val{{T: res}, {T: has}}}
 		} else {
